@@ -70,7 +70,7 @@ var props = map[string]propConf{
 	"C15": {"exploration", 16, 16, 2, 10 * time.Minute, 60 * time.Minute, false, 0, false, "", false},
 	"C16": {"exploration", 16, 16, 2, 10 * time.Minute, 60 * time.Minute, false, 0, false, "", false},
 	"C17": {"fault_enumeration", 16, 16, 2, 10 * time.Minute, 60 * time.Minute, false, 0, false, "", false},
-	"C18": {"fault_enumeration", 16, 16, 2, 10 * time.Minute, 60 * time.Minute, false, 0, true, "", false},
+	"C18": {"fault_enumeration", 16, 16, 2, 10 * time.Minute, 60 * time.Minute, false, 0, true, "", true},
 	"C19": {"exploration", 8, 8, 4, 10 * time.Minute, 60 * time.Minute, false, 0, false, "", false},
 	"C20": {"exploration", 16, 16, 2, 10 * time.Minute, 60 * time.Minute, false, 0, true, "", false},
 }
@@ -143,7 +143,7 @@ func main() {
 	if conf.superBin {
 		// the `super` executable of the same tree (and overlay), for steps that
 		// only exist as commands (`super db manage`)
-		bin := filepath.Join(cache, "super-"+id)
+		bin := filepath.Join(cache, "super-C14") // one binary for all properties that need it
 		if *overlay != "" {
 			bin += "-ov"
 		}
